@@ -157,7 +157,43 @@ CHECKS['C05'] = cfg_property(PROVED_NOTE + 'C05: conserved(original blocks, resu
 CHECKS['C06'] = cfg_property(PROVED_NOTE + 'C06: table invariant on every SyntheticBranch of every result and assigned-before-use / in-range on every '
                              'reachable (block, valuation) of the product exploration; proved: the invariant is preserved by '
                              'SyntheticBranch.replace_jump_targets (table_ok, renamed_table).')
-CHECKS['C16'] = cfg_property('Bounded only: list(scfg) and the concealed view of every level of every result compared with the hierarchy. ' + PROVED_NOTE)
+_c16_cfg = cfg_property('Bounded only: list(scfg) and the concealed view of every level of every result compared with the hierarchy; plus the same '
+                        'two checks on all small flat digraphs with duplicate targets, self loops, outside targets and declared back edges. ' + PROVED_NOTE)
+
+
+def c16(prop, pool, verdict, tier, seed):
+    from rtc import prop_c16
+    level, cov, assumptions = _c16_cfg(prop, pool, verdict, tier, seed)
+    d = prop_c16.run(pool, tier, seed)
+    by_kind = {}
+    for f in d['fails']:
+        by_kind.setdefault(f['kind'], []).append(f)
+    for kind, fs in sorted(by_kind.items()):
+        f = min(fs, key=lambda x: (len(x['graph']), str(x['graph'])))
+        rp = write_replay(prop, 'flat-%s' % kind, {'kind': 'flat-digraph', 'property': prop, 'graph': f['graph'], 'backedges': f['backedges'],
+                                                   'check': kind, 'detail': f['detail'], 'failing_inputs_in_scope': len(fs)})
+        verdict.violation(rp)
+    cov['flat_digraphs'] = {k: d[k] for k in ('graphs', 'in_scope', 'nontrivial', 'dup_targets')}
+    cov['evaluations'] += d['in_scope']
+    cov['distinct_nontrivial'] += d['nontrivial']
+    cov['rule'] += ('; plus all flat digraphs (1-3 nodes, out-degree <= 3/3/2, duplicate targets, self loops, one outside name, optional declared back edge) '
+                    'with a unique head from which every block is reachable: %d graphs, %d of them with a duplicated target' % (d['in_scope'], d['dup_targets']))
+    cov['samples'] = cov.get('samples', []) + [{'flat_digraph': x} for x in d['samples'][:1]]
+    return level, cov, assumptions
+
+
+def replay_flat(r):
+    from rtc import prop_c16
+    bad = prop_c16.check_flat({k: tuple(v) for k, v in r['graph'].items()}, {k: tuple(v) for k, v in r['backedges'].items()})
+    if bad is not None:
+        print('REPRODUCED flat digraph %s: %s' % (r['graph'], bad))
+        return 1
+    print('not reproduced')
+    return 0
+
+
+REPLAYERS['flat-digraph'] = replay_flat
+CHECKS['C16'] = c16
 
 CHECKS['C14'] = cfg_property(PROVED_NOTE + 'C14: all value-level clauses of insert_block (+4 typed wrappers), add_block, remove_blocks and '
                              'SyntheticBranch.replace_jump_targets are proved; the hierarchy clause for region predecessors and edit sequences are '
